@@ -578,18 +578,51 @@ func (ev *evaluator) execRange(s *ast.RangeStmt, label string, st state, info *t
 	live, dead := ev.evalLive(s.X, st, info)
 	out = append(out, dead...)
 	objs := assignedIn(s, info)
-	for _, r := range live {
-		h := havoc(r.st, objs)
-		// zero iterations
-		out = append(out, completion{kind: cNormal, st: h})
-		for _, cp := range ev.execBlock(s.Body.List, h, info) {
-			switch {
-			case cp.kind == cNormal, cp.kind == cContinue && (cp.label == "" || cp.label == label),
-				cp.kind == cBreak && (cp.label == "" || cp.label == label):
-				out = append(out, completion{kind: cNormal, st: havoc(cp.st, objs)})
-			default:
-				out = append(out, cp)
+	// range variables are unknown in every iteration
+	var rangeVars []types.Object
+	for _, e := range []ast.Expr{s.Key, s.Value} {
+		if id, ok := e.(*ast.Ident); ok && id.Name != "_" {
+			if o := info.Defs[id]; o != nil {
+				rangeVars = append(rangeVars, o)
+			} else if o := info.Uses[id]; o != nil {
+				rangeVars = append(rangeVars, o)
 			}
+		}
+	}
+	for _, r := range live {
+		// abstract fixpoint over the states reachable after 0, 1, 2, ... iterations
+		seen := map[string]bool{}
+		work := []state{r.st}
+		overflow := false
+		for len(work) > 0 {
+			cur := work[len(work)-1]
+			work = work[:len(work)-1]
+			k := cur.env.key()
+			if seen[k] {
+				continue
+			}
+			seen[k] = true
+			if len(seen) > 24 {
+				overflow = true
+				break
+			}
+			// leaving the loop after this many iterations
+			out = append(out, completion{kind: cNormal, st: cur})
+			for _, cp := range ev.execBlock(s.Body.List, havoc(cur, rangeVars), info) {
+				mine := cp.label == "" || cp.label == label
+				switch {
+				case cp.kind == cNormal, cp.kind == cContinue && mine:
+					work = append(work, havoc(cp.st, rangeVars))
+				case cp.kind == cBreak && mine:
+					out = append(out, completion{kind: cNormal, st: havoc(cp.st, rangeVars)})
+				default:
+					out = append(out, cp)
+				}
+			}
+		}
+		if overflow {
+			ev.note("range fixpoint overflow; assigned variables forgotten")
+			out = append(out, completion{kind: cNormal, st: havoc(r.st, objs)})
 		}
 	}
 	return out
